@@ -487,10 +487,17 @@ pub mod verif_hooks {
     }
 
     pub(crate) fn take_random(len: usize) -> Option<Vec<u8>> {
-        let mut guard = RANDOM_STREAM.lock().unwrap();
-        let q = guard.as_mut()?;
-        assert!(q.len() >= len, "verif random stream exhausted");
-        Some(q.drain(..len).collect())
+        let taken = {
+            let mut guard = RANDOM_STREAM.lock().unwrap();
+            let q = guard.as_mut()?;
+            if q.len() >= len {
+                Some(q.drain(..len).collect())
+            } else {
+                None
+            }
+        };
+        // Panic only after the lock has been released, so it is never poisoned.
+        Some(taken.expect("verif random stream exhausted"))
     }
 
     pub fn scrypt_salsa_xor(tmp: &mut [u32], inn: &[u32], out: &mut [u32]) {
